@@ -25,16 +25,16 @@ LEVEL["C18"] = "fault_enumeration"
 
 # (variant, quick runs, thorough runs, extra args)
 PLAN = {
-    "C11": [("prod", 1500000, 20000000, []), ("san", 60000, 600000, [])],
-    "C12": [("prod", 400000, 6000000, []), ("san", 20000, 200000, [])],
-    "C13": [("prod", 60000, 1500000, []), ("san", 600, 8000, [])],
-    "C15": [("prod", 80000, 4000000, []), ("san", 4000, 80000, [])],
-    "C16": [("prod", 100000, 5000000, []), ("san", 3000, 60000, ["--no-baseline"])],
-    "C17": [("prod", 32000, 2000000, []), ("san", 2500, 50000, [])],
+    "C11": [("prod", 1500000, 20000000, []), ("san", 60000, 600000, []), ("ndebug", 100000, 1000000, [])],
+    "C12": [("prod", 400000, 6000000, []), ("san", 20000, 200000, []), ("ndebug", 40000, 400000, [])],
+    "C13": [("prod", 60000, 1500000, []), ("san", 600, 8000, []), ("ndebug", 6000, 100000, [])],
+    "C15": [("prod", 80000, 4000000, []), ("san", 4000, 80000, []), ("ndebug", 6000, 100000, ["--no-baseline"])],
+    "C16": [("prod", 100000, 5000000, []), ("san", 3000, 60000, ["--no-baseline"]), ("ndebug", 6000, 100000, ["--no-baseline"])],
+    "C17": [("prod", 32000, 2000000, []), ("san", 2500, 50000, []), ("ndebug", 4000, 60000, [])],
     "C18": [("trng-getrandom", 40000, 1000000, []), ("trng-getentropy", 40000, 1000000, []), ("trng-syscall", 40000, 1000000, []),
-            ("trng-devurandom", 40000, 1000000, []), ("prod", 15000, 300000, []), ("san", 2500, 50000, [])],
-    "C19": [("prod", 120000, 2500000, []), ("hook", 40000, 700000, []), ("san", 4000, 60000, [])],
-    "C20": [("prod", 300000, 5000000, []), ("san", 12000, 150000, [])],
+            ("trng-devurandom", 40000, 1000000, []), ("prod", 15000, 300000, []), ("san", 2500, 50000, []), ("ndebug", 6000, 100000, ["--no-baseline"])],
+    "C19": [("prod", 120000, 2500000, []), ("hook", 40000, 700000, []), ("san", 4000, 60000, []), ("ndebug", 10000, 100000, [])],
+    "C20": [("prod", 300000, 5000000, []), ("san", 12000, 150000, []), ("ndebug", 30000, 300000, [])],
 }
 CFG_VARIANTS = ["cfg-%s-%s-%s" % (c, o, z) for c in ("gcc", "clang") for o in ("O0", "O1", "O2", "O3", "Os") for z in ("bz", "vol")]
 CFG_QUICK = ["cfg-gcc-O2-vol", "cfg-clang-O3-vol", "cfg-gcc-O0-bz"]
